@@ -16,6 +16,9 @@ def plan(ctx):
     obs.append(Obligation("api.cached_near_duplicates", "xh", "c18", "api_lookups_cached", timeout=T * 2,
                           bounds="7 pairs of texts differing only in blank runs inside %names%; either order; first text parsed or evaluated (finite domain)",
                           desc="with a parse cache, after a near-duplicate text: eval asks the host only for the names list_names reports for the text at hand"))
+    obs.append(Obligation("names_exact", "xh", "c18", "names_exact", timeout=T * 3,
+                          bounds="13 texts (identifiers that start / end like keywords, keywords next to names, %..% names holding keywords) x no earlier call or one of 9 failing texts through eval / parse / an abandoned listing (finite domain, native)",
+                          desc="list_names gives exactly the identifiers of the text in source order, also right after a failed call on the same parser"))
     obs.append(Obligation("interleaved", "xh", "c18", "names_interleaved", timeout=T, bounds="listing consumed 0..4 names, then one of 4 calls on a second parser (finite domain)",
                           desc="a partly consumed list_names() is not disturbed by calls on another SqParser"))
     obs.append(Obligation("retyping", "xh", "c18", "name_retyping", timeout=T, bounds="identifier text symbolic <= 3 chars or one of the 17 keywords",
@@ -37,7 +40,7 @@ def plan(ctx):
     for i, text in enumerate(h.TEMPLATES):
         obs.append(Obligation(f"api.t{i}", "xh", "c18", "api_lookups", param={"t": i}, timeout=T, bounds="host values symbolic",
                               desc=f"eval({text!r}) with a recording host mapping: every requested key is in list_names(text) or implicit"))
-    obs += lxc_obligations(ctx, ['names'])
+    obs += lxc_obligations(ctx, ['names', 'reference'])
     return {
         "precheck": lxc_precheck,
         "obligations": obs, "uncovered": uncovered,
